@@ -26,19 +26,19 @@ const (
 
 // Shared is the immutable program state shared by all workers.
 type Shared struct {
-	Prog     *ssa.Program
-	Pkgs     map[string]*ssa.Package // by import path
-	RootPath string                  // module path of the code under test
-	finfo    sync.Map                // *ssa.Function -> *funcInfo
-	Fset     *token.FileSet
-	errorT   types.Type // a named type used as dynamic type of errObj values
-	stringT  types.Type
-	Blocks   sync.Map // coverage: *ssa.BasicBlock -> struct{}
-	errorIface types.Type
+	Prog        *ssa.Program
+	Pkgs        map[string]*ssa.Package // by import path
+	RootPath    string                  // module path of the code under test
+	finfo       sync.Map                // *ssa.Function -> *funcInfo
+	Fset        *token.FileSet
+	errorT      types.Type // a named type used as dynamic type of errObj values
+	stringT     types.Type
+	Blocks      sync.Map // coverage: *ssa.BasicBlock -> struct{}
+	errorIface  types.Type
 	jsonNumberT types.Type
 	yamlNodeT   *types.Struct
-	harnessFn  sync.Map
-	Tier       int
+	harnessFn   sync.Map
+	Tier        int
 }
 
 type funcInfo struct {
